@@ -7,7 +7,7 @@
     any subset of panicking calls, spurious wake-ups included.  [code_cfg] is
     the configuration read from pool.rs by tools/extract_consts.py. *)
 From DivanV Require Import Base.Res Generated.Consts Model.Pool Proofs.Pool Proofs.PoolLive Proofs.PoolCalls
-  Proofs.PoolViews Proofs.PoolSlots.
+  Proofs.PoolViews Proofs.PoolSlots Proofs.PoolExamples Proofs.PoolBool.
 Import PoolM.
 
 (** Obligations on the generated constants: the worker unparks iff [fetch_sub]
@@ -118,3 +118,21 @@ Theorem C06_spawn_reuse : forall s l s',
   end.
 Proof. exact (spawn_reuse code_cfg). Qed.
 Print Assumptions C06_spawn_reuse.
+
+(** The executable invariants that the explorer (driver mode pool-bfs) checks
+    by brute force on small scripts, and the trace replay checks at the end of
+    every implementation trace, hold in every reachable state of every script. *)
+Theorem C06_boolean_invariants : forall scr s,
+  reachable code_cfg scr s -> inv_all code_cfg s = true.
+Proof. exact (fun scr s => inv_all_reachable code_cfg scr s C06_cfg_good). Qed.
+Print Assumptions C06_boolean_invariants.
+
+(** The hypotheses above are satisfiable together by a non-trivial execution:
+    script [2; 1] (worker reuse), call (1,1) panics, one wake-up by token, one
+    spurious wake-up, pool drop; the first record has an empty slot exactly at
+    the panicked index. *)
+Theorem C06_nonvacuous :
+  exists s r, reachable code_cfg [2; 1] s /\ final s = true /\ In r (returned s)
+              /\ r_b r = 1 /\ r_n r = 2 /\ r_slots r = [Some 0; None; Some 2].
+Proof. exact nonvacuous. Qed.
+Print Assumptions C06_nonvacuous.
